@@ -375,7 +375,7 @@ builtin_get(spif_charptr_t param)
     unsigned short n;
 
     if (!param || ((n = spiftool_num_words(param)) > 2)) {
-        libast_print_error("Parse error in file %s, line %lu:  Invalid syntax for %get().  Syntax is:  %get(variable)\n", file_peek_path(),
+        libast_print_error("Parse error in file %s, line %lu:  Invalid syntax for %%get().  Syntax is:  %%get(variable)\n", file_peek_path(),
                     file_peek_line());
         return NULL;
     }
@@ -407,7 +407,7 @@ builtin_put(spif_charptr_t param)
     spif_charptr_t var, val;
 
     if (!param || (spiftool_num_words(param) != 2)) {
-        libast_print_error("Parse error in file %s, line %lu:  Invalid syntax for %put().  Syntax is:  %put(variable value)\n", file_peek_path(),
+        libast_print_error("Parse error in file %s, line %lu:  Invalid syntax for %%put().  Syntax is:  %%put(variable value)\n", file_peek_path(),
                     file_peek_line());
         return NULL;
     }
@@ -430,7 +430,7 @@ builtin_dirscan(spif_charptr_t param)
     spif_charptr_t dir, buff;
 
     if (!param || (spiftool_num_words(param) != 1)) {
-        libast_print_error("Parse error in file %s, line %lu:  Invalid syntax for %dirscan().  Syntax is:  %dirscan(directory)\n",
+        libast_print_error("Parse error in file %s, line %lu:  Invalid syntax for %%dirscan().  Syntax is:  %%dirscan(directory)\n",
                     file_peek_path(), file_peek_line());
         return NULL;
     }
